@@ -167,6 +167,10 @@ func runCheck(prop, tier string, seed int64) (int, error) {
 		return 2, err
 	}
 	if err := def.fn(c); err != nil {
+		if c.hangViolations() {
+			fmt.Println("NOTE:", err)
+			return c.finish()
+		}
 		return 2, err
 	}
 	return c.finish()
